@@ -248,13 +248,16 @@ func scenario(c cfg) *mcx.Scenario {
 	}
 }
 
-// allOr: every segmentation when the stream is short enough (<= 15 bytes: 16384 segmentations), else cut sets up to n.
+// allLimit: streams up to this many bytes get every segmentation (15 bytes: 16384 segmentations; thorough 18: 131072).
+var allLimit = 15
+
+// allOr: every segmentation when the stream is short enough, else cut sets up to n.
 func allOr(n int, shapes ...shape) int {
 	total := 0
 	for _, s := range shapes {
 		total += len(tcpw.Encode(s.M))
 	}
-	if total <= 15 {
+	if total <= allLimit {
 		return -1
 	}
 	return n
@@ -278,18 +281,21 @@ func be32(v uint32) []byte { return []byte{byte(v >> 24), byte(v >> 16), byte(v 
 func main() {
 	r := ev.Start("C07", "fault_enumeration")
 	var scs []*mcx.Scenario
+	if r.Thorough() {
+		allLimit = 18
+	}
 	caches := []uint16{1, 2, 3, 7, 64, 2048}
 	// (1) singles and pairs of the short shapes: every segmentation
 	for _, a := range small {
 		for _, ca := range caches {
-			scs = append(scs, scenario(cfg{Seq: []shape{a}, Cache: ca, MaxCuts: allOr(ev.Pick(r, 4, 6), a)}))
+			scs = append(scs, scenario(cfg{Seq: []shape{a}, Cache: ca, MaxCuts: allOr(ev.Pick(r, 4, 8), a)}))
 		}
 	}
 	short := small[:8]
 	for _, a := range short {
 		for _, b := range short {
-			for _, ca := range []uint16{1, 3, 2048} {
-				scs = append(scs, scenario(cfg{Seq: []shape{a, b}, Cache: ca, MaxCuts: allOr(ev.Pick(r, 3, 4), a, b)}))
+			for _, ca := range ev.Pick(r, []uint16{1, 3, 2048}, caches) {
+				scs = append(scs, scenario(cfg{Seq: []shape{a, b}, Cache: ca, MaxCuts: allOr(ev.Pick(r, 3, 5), a, b)}))
 			}
 		}
 	}
@@ -297,7 +303,7 @@ func main() {
 	for _, a := range short {
 		for _, b := range short {
 			for _, c3 := range short {
-				scs = append(scs, scenario(cfg{Seq: []shape{a, b, c3}, Cache: ev.Pick(r, uint16(2), uint16(3)), MaxCuts: ev.Pick(r, 2, 3)}))
+				scs = append(scs, scenario(cfg{Seq: []shape{a, b, c3}, Cache: ev.Pick(r, uint16(2), uint16(3)), MaxCuts: ev.Pick(r, 2, 4)}))
 			}
 		}
 	}
@@ -307,8 +313,8 @@ func main() {
 			if len(b.M.Payload) > 1000 && ca < 64 {
 				continue
 			}
-			scs = append(scs, scenario(cfg{Seq: []shape{b}, Cache: ca, MaxCuts: ev.Pick(r, 2, 3)}))
-			scs = append(scs, scenario(cfg{Seq: []shape{small[1], b, small[2]}, Cache: ca, MaxCuts: ev.Pick(r, 1, 2)}))
+			scs = append(scs, scenario(cfg{Seq: []shape{b}, Cache: ca, MaxCuts: ev.Pick(r, 2, 4)}))
+			scs = append(scs, scenario(cfg{Seq: []shape{small[1], b, small[2]}, Cache: ca, MaxCuts: ev.Pick(r, 1, 3)}))
 		}
 	}
 	// (3b) a frame larger than the read buffer / connection cache with complete frames coalesced behind it, and a further read
@@ -335,7 +341,7 @@ func main() {
 		append(append([]byte{0xf1}, be32(0xfffefef0)...), 0x02, 0xaa, 1, 2, 3, 4), // 2^32 + small
 	} {
 		for _, ca := range []uint16{1, 3, 2048} {
-			scs = append(scs, scenario(cfg{Seq: []shape{small[0], small[1]}, Cache: ca, MaxCuts: ev.Pick(r, 4, 6), Oversize: ov, MaxSize: 64}))
+			scs = append(scs, scenario(cfg{Seq: []shape{small[0], small[1]}, Cache: ca, MaxCuts: ev.Pick(r, 4, 8), Oversize: ov, MaxSize: 64}))
 		}
 	}
 	sum := mcx.Explore(r, scs, mcx.Config{Wall: ev.Pick(r, 4*time.Minute, 30*time.Minute)})
